@@ -78,6 +78,42 @@ func runC09(c *Ctx) {
 					others = append(others, e)
 				}
 			}
+			// Load first, LoadOrStore only on a miss: the mutex of a key already in the map is found without allocating
+			// a candidate; a first use still agrees on one mutex through LoadOrStore. Reduce both shapes to the single
+			// deciding operation: the Load on its hit path, the LoadOrStore after a Load that missed.
+			loadFirst := false
+			if len(mapOps) >= 1 && mapOps[0].Name == "sync2.(*Map).Load" && len(mapOps[0].Args) == 2 && isParam(mapOps[0].Args[1], 1) && !(isUnlockRow(row.op) && len(mapOps) == 1) {
+				ld := mapOps[0]
+				hit := ""
+				for _, cd := range p.Conds {
+					t, pol := stripNot(cd.T, cd.Pol)
+					if t.Op == "extract" && t.N == 1 && t.Args[0].Key() == ld.Res.Key() {
+						hit = map[bool]string{true: "yes", false: "no"}[pol]
+					}
+				}
+				switch {
+				case hit == "yes" && len(mapOps) == 1:
+					loadFirst = true
+					// operate on the mutex the lookup found
+					if len(mtxOps) != 1 || mtxOps[0].Name != row.op {
+						ok3, why3 = false, "does not perform exactly "+row.op+" on the mutex found by Load"
+					} else if mtxOps[0].Args[0].Key() != (&Term{Op: "extract", Args: []*Term{ld.Res}, N: 0}).Key() {
+						ok2, why2 = false, "operates on "+mtxOps[0].Args[0].String()+", not on the mutex the lookup returned"
+					} else if row.try && (p.End != EndReturn || len(p.Rets) != 1 || p.Rets[0].Key() != mtxOps[0].Res.Key()) {
+						ok3, why3 = false, "does not return the Try operation's result"
+					}
+					if len(others) > 0 {
+						ok4, why4 = false, "other effects around the per-key operation: "+others[0].String()
+					}
+					if len(p.Conds) != 1 {
+						ok4, why4 = false, "the method branches on more than the lookup: "+p.CondString()
+					}
+					continue
+				case hit == "no" && len(mapOps) == 2:
+					loadFirst = true
+					mapOps = mapOps[1:] // the LoadOrStore decides; judged below
+				}
+			}
 			if len(mapOps) != 1 {
 				names := []string{}
 				for _, o := range mapOps {
@@ -87,6 +123,39 @@ func runC09(c *Ctx) {
 				continue
 			}
 			mo := mapOps[0]
+			isUnlock := strings.HasSuffix(row.op, ".Unlock") || strings.HasSuffix(row.op, ".RUnlock")
+			if isUnlock && mo.Name == "sync2.(*Map).Load" && len(mo.Args) == 2 && isParam(mo.Args[1], 1) {
+				// releasing: the key's mutex is in the map already if the key is held, so a plain Load finds the shared
+				// mutex; a miss (the key was never locked) must not go on to operate on anything
+				found := ""
+				for _, cd := range p.Conds {
+					t, pol := stripNot(cd.T, cd.Pol)
+					if t.Op == "extract" && t.N == 1 && t.Args[0].Key() == mo.Res.Key() {
+						found = map[bool]string{true: "yes", false: "no"}[pol]
+					} else {
+						ok4, why4 = false, "the method branches on something other than the lookup: "+p.CondString()
+					}
+				}
+				switch found {
+				case "no":
+					if len(mtxOps) != 0 {
+						ok3, why3 = false, "a key without a mutex is operated on all the same"
+					}
+				case "yes":
+					actual := &Term{Op: "extract", Args: []*Term{mo.Res}, N: 0}
+					if len(mtxOps) != 1 || mtxOps[0].Name != row.op {
+						ok3, why3 = false, "does not perform exactly "+row.op+" on the mutex found"
+					} else if mtxOps[0].Args[0].Key() != actual.Key() {
+						ok2, why2 = false, "operates on "+mtxOps[0].Args[0].String()+", not on the mutex the lookup returned"
+					}
+				default:
+					ok1, why1 = false, "the result of Load is used without testing that the key has a mutex"
+				}
+				if len(others) > 0 {
+					ok4, why4 = false, "other effects around the per-key operation: "+others[0].String()
+				}
+				continue
+			}
 			if mo.Name != "sync2.(*Map).LoadOrStore" {
 				ok1, why1 = false, "the key map operation is "+mo.Name+", not LoadOrStore"
 				continue
@@ -123,7 +192,7 @@ func runC09(c *Ctx) {
 			if len(others) > 0 {
 				ok4, why4 = false, "other effects around the per-key operation: "+others[0].String()
 			}
-			if len(p.Conds) != 0 {
+			if len(p.Conds) != 0 && !(loadFirst && len(p.Conds) == 1) {
 				ok4, why4 = false, "the method branches: "+p.CondString()
 			}
 		}
@@ -148,4 +217,8 @@ func runC09(c *Ctx) {
 		R.Decide(ok, "method-table", name, "op", c.pos(fi), "Delete(key) on the key map", "ClearKey is not exactly Delete(key)")
 	}
 	runMapProtocol(c, "map/")
+}
+
+func isUnlockRow(op string) bool {
+	return strings.HasSuffix(op, ".Unlock") || strings.HasSuffix(op, ".RUnlock")
 }
